@@ -198,7 +198,7 @@ def check_constructors(ctx, chk, L, rid="L4", rid0="L0"):
             aggs = [t for t in subterms(r.value) if isinstance(t, tuple) and t and t[0] == "agg" and t[1] == level_def]
             for t in aggs:
                 n_sites += 1
-                ok, detail = constructor_site_ok(L, r, t, ra)
+                ok, detail = constructor_site_ok(L, r, t, ra, res)
                 chk.require(ok, rid, "%s:construct" % b.defp, b.span, detail, describe_path(r))
             if not aggs:
                 v = r.value
@@ -449,7 +449,7 @@ def _mapped_component_ok(ctx, clo, k, role, R):
     return n > 0, "map"
 
 
-def constructor_site_ok(L, r, t, ra):
+def constructor_site_ok(L, r, t, ra, allres=()):
     """t: agg PriceLevel{...} on path r"""
     fd = dict(t[3])
     inv = {v: k for k, v in L.counter_role.items()}
@@ -482,6 +482,10 @@ def constructor_site_ok(L, r, t, ra):
     # and the queue built from X.orders
     calls = [e for e in r.trace if e[0] == "call" and e[1].endswith("refresh_aggregates")]
     if not calls:
+        lf = local_fold_ok(L, r, va, ha, ca, q, allres)
+        if lf is not None:
+            return lf
+    if not calls:
         return False, "non-zero counters (%s, %s, %s) without a refresh_aggregates() call on the source" % (short(va), short(ha), short(ca))
     refreshed = calls[-1][3]          # the call term; the snapshot local becomes ('mut', call, 0)
     def from_refreshed(x, fld):
@@ -509,6 +513,68 @@ def constructor_site_ok(L, r, t, ra):
     if not ok:
         return False, "the queue is built from %s, which is not exactly the refreshed snapshot's order list (the counters describe that list)" % short(seen_arg if seen_arg is not None else q)[:200]
     return True, "derived from refreshed snapshot"
+
+
+def _strip_ref(x):
+    while isinstance(x, tuple) and x and x[0] == "refval":
+        x = x[1]
+    return x
+
+
+def local_fold_ok(L, r, va, ha, ca, q, allres):
+    """constructor idiom: the counters are folded inside the constructor itself - two accumulators that start at 0 and
+    add, per element of ONE list, the element's display / reserve quantity with saturating_add; the count is that
+    list's len(); the queue is built from that very list (`OrderQueue::from(list)`) or the list is the queue's own
+    listing (`queue.to_vec()`).  None when the counters are not loop-carried accumulators of one loop (not this idiom)."""
+    from ..walk import Walker
+    R = L.R
+    if not all(isinstance(x, tuple) and x and x[0] == "havoc" and len(x) == 3 and isinstance(x[2], int) for x in (va, ha)) or va[1] != ha[1]:
+        return None
+    K = va[1]
+    marks = [e for e in r.trace if e[0] == "loop" and e[1] == K]
+    if not marks:
+        return None
+    pre = marks[0][2]
+    if pre.get(va[2]) != Int(0) or pre.get(ha[2]) != Int(0):
+        return False, "the accumulators feeding the counters do not start at 0 (%s, %s)" % (short(pre.get(va[2])), short(pre.get(ha[2])))
+    its = [(l, v) for l, v in pre.items() if isinstance(l, int) and isinstance(v, tuple) and v and v[0] == "call"
+           and (v[1].endswith("into_iter") or v[1].endswith("::iter")) and len(v[2]) == 1]
+    if len(its) != 1:
+        return False, "cannot identify the one list the constructor's loop iterates (%d iterators)" % len(its)
+    it_local, it_term = its[0]
+    lst = _strip_ref(it_term[2][0])
+    itv = ("havoc", K, it_local)
+    backs = [rb for rb in allres if rb.kind == "backedge" and isinstance(rb.detail, tuple) and Walker._site_str(rb.detail) == K]
+    seen = set()
+    for rb in backs:
+        fr = rb.state.frames.get(0) if isinstance(rb.state.frames, dict) else rb.state.frames[0]
+        vs = [(a[1], a[2]) for a, p in rb.facts.order if a[0] == "variant" and a[2] in R.variants and mentions(a[1], itv)]
+        if len(vs) != 1:
+            return False, "an iteration of the constructor's loop does not decide the element's order type"
+        o, v = vs[0]
+        seen.add(v)
+        for role, hv in (("display", va), ("reserve", ha)):
+            newv = fr.locals.get(hv[2])
+            if not (isinstance(newv, tuple) and newv[0] == "satadd" and newv[1] == hv):
+                return False, "the %s accumulator is updated to %s, not saturating_add(acc, ..)" % (role, short(newv)[:120])
+            f = (R.display if role == "display" else R.reserve)[v]
+            want = Int(0) if f is None else ("field", o, v, f)
+            if newv[2] != want:
+                return False, "the %s accumulator adds %s for a %s element, not its %s quantity" % (role, short(newv[2])[:100], v, role)
+    if seen != set(R.variants):
+        return False, "the constructor's loop was analysed for %s only" % sorted(seen)
+    # count = len of the same list
+    if not (isinstance(ca, tuple) and ca[0] == "call" and ca[1].endswith("::len") and len(ca[2]) == 1 and _strip_ref(ca[2][0]) == lst):
+        return False, "the count is %s, not the length of the list the sums run over" % short(ca)[:160]
+    # the queue holds exactly that list
+    built = isinstance(q, tuple) and q and q[0] in ("call", "eff") and any(
+        e[3] == q and any(_strip_ref(a) == lst for a in (e[7] if len(e) > 7 and isinstance(e[7], tuple) else e[2])) for e in r.trace if e[0] in ("call", "eff"))
+    if not built and isinstance(q, tuple) and q[0] == "call" and q[1].endswith("::from") and len(q[2]) == 1 and _strip_ref(q[2][0]) == lst:
+        built = True
+    listing = any(e[0] == "eff" and e[1] == "Q.to_vec" and e[3] == lst and len(e) > 7 and e[7] and _strip_ref(e[7][0]) == q for e in r.trace)
+    if not (built or listing):
+        return False, "the sums run over %s but the queue is %s: not the same list" % (short(lst)[:100], short(q)[:100])
+    return True, "counters folded in the constructor over the list the queue holds"
 
 
 def mentions(t, sub):
